@@ -56,7 +56,7 @@ func (e *histEngine) step(r *rng, k int) MalType {
 		}
 	}
 	lit := func() MalType { return 10 + r.intn(80) }
-	switch r.intn(24) {
+	switch r.intn(25) {
 	case 0, 1, 2:
 		return call1("conj", prev(), lit())
 	case 3:
@@ -94,6 +94,12 @@ func (e *histEngine) step(r *rng, k int) MalType {
 		if r.chance(1, 2) {
 			return call1("conj", prev(), kw(r.pick([]string{"a", "s"}))) // sets take keyword members
 		}
+		switch r.intn(3) {
+		case 0:
+			return call1("dissoc", prev(), kw("a"), kw("zz")) // a present key, then an absent one
+		case 1:
+			return call1("dissoc", prev(), kw("zz"), kw("a"), kw("b"))
+		}
 		return call1("dissoc", prev(), kw("a"))
 	case 16:
 		return call1("merge", prev(), HashMap{Val: map[string]MalType{kw("z"): lit()}})
@@ -124,6 +130,11 @@ func (e *histEngine) step(r *rng, k int) MalType {
 		default:
 			return call1("update-in", prev(), vc(kw("b"), r.intn(2)), ls(sy("fn"), vc(sy("x")), lit()))
 		}
+	case 23:
+		// a closure over a let binding keeps seeing it when a let in tail position rebinds the name to an extension
+		v := prev()
+		return ls(sy("let"), vc(sy("x"), v, sy("f"), ls(sy("fn"), vc(), sy("x"))),
+			ls(sy("let"), vc(sy("x"), call1("conj", sy("x"), lit())), call1("list", ls(sy("f")), sy("x"))))
 	case 22:
 		// a handler's variable named like an existing binding shadows it for the handler only
 		v := prev()
